@@ -640,13 +640,6 @@ def factoryRefs (t : Ty) : List TRef :=
   | .user q => [.swWrap q]
   | _ => []
 
-/-- ObjcTypes.jinja line 33-35 evaluates `field.data_type.data_type` for a `Map` field whose value type is a struct
-with enumerated subtypes: jinja2 `UndefinedError` (design note D18) -/
-def d18Field (api : Api) (f : Field) : Bool :=
-  match f.ty with
-  | .map _ (.user q) => tyHasSubtypes api (.user q)
-  | _ => false
-
 def swObjcStructDecls (api : Api) (ns : String) (s : StructT) : List Decl :=
   let q : QName := ⟨ns, s.name⟩
   let C := (TRef.swWrap q).text
@@ -701,13 +694,12 @@ def authMissing (api : Api) : Option String :=
     if r.auth.isNone then some s!"route {ns.name}.{r.name} has no auth attribute" else none).head?
 
 /-- the argument list of a route function (`_get_route_args`, Swift flavour): type references only -/
-def swRouteArgRefs (api : Api) (ns : String) (r : Route) : List TRef :=
+def swRouteArgRefs (api : Api) (_ns : String) (r : Route) : List TRef :=
   match r.arg with
   | .user q =>
     match api.find? q with
     | some (.struct s) => fieldRefs swType (structAllFields api q.ns s)
-    | some (.union u) => [TRef.swType ⟨ns, u.name⟩]      -- `fmt_class(namespace.name)`: the ROUTE's namespace
-    | none => (swType r.arg).refs
+    | _ => (swType r.arg).refs                            -- a union: `fmt_type`, the namespace of the TYPE
   | t => if t.isVoid then [] else (swType t).refs
 
 def argIsStruct (api : Api) (t : Ty) : Bool :=
@@ -1013,11 +1005,7 @@ def declsOf (b : Backend) (api : Api) (o : Options) : List Decl :=
 def crash (b : Backend) (api : Api) (o : Options) : Option String :=
   match b with
   | .swiftTypes => none
-  | .swiftTypesObjc =>
-    (api.allTypes.filterMap fun (ns, t) => match t with
-      | .struct s => (s.fields.find? (d18Field api)).map fun f =>
-          s!"UndefinedError: 'Map object' has no attribute 'data_type' (field {f.name} of {ns}.{s.name})"
-      | .union _ => none).head?
+  | .swiftTypesObjc => none
   | .swiftClient => (authMissing api).map ("TypeError: argument of type 'NoneType' is not iterable: " ++ ·)
   | .swiftClientObjc =>
     match authMissing api with
@@ -1057,17 +1045,12 @@ def typeMentions (ns : String) (t : UserT) : List QName :=
    | .struct s => (s.subtypes.getD []).map (·.2)
    | .union _ => [])
 
-/-- user types a route mentions; a union argument is printed with the ROUTE's namespace by `swift_client` -/
-def routeMentions (api : Api) (ns : String) (r : Route) : List QName :=
-  r.arg.userTypes ++ r.result.userTypes ++ r.error.userTypes ++
-  (match r.arg with
-   | .user q => match api.find? q with
-     | some (.union u) => [⟨ns, u.name⟩]
-     | _ => []
-   | _ => [])
+/-- user types a route mentions: those of its argument, result and error types -/
+def routeMentions (r : Route) : List QName :=
+  r.arg.userTypes ++ r.result.userTypes ++ r.error.userTypes
 
 def mentioned (api : Api) : List QName :=
-  api.nss.flatMap fun ns => ns.types.flatMap (typeMentions ns.name) ++ ns.routes.flatMap (routeMentions api ns.name)
+  api.nss.flatMap fun ns => ns.types.flatMap (typeMentions ns.name) ++ ns.routes.flatMap routeMentions
 
 /-- the closure invariant of an accepted specification (C02): every user type that is mentioned is registered in its
 namespace. Decidable; evaluated by the driver on every API description of the suite. -/
